@@ -29,6 +29,7 @@ def jobs(tier):
         mk('C03', 'child/raising', S.child('await', k=0, raising='child', actor=False), witnesses=W),
         mk('C03', 'late_grandchild', S.late_grandchild(), witnesses=W),
         mk('C03', 'timeout_bystander', S.timeout_bystander(), witnesses=W),
+        mk('C03', 'timeout_bystander/two_handlers', S.timeout_bystander(True), witnesses=W),
         mk('C03', 'child/await/k0/decoys', dict(S.child('await', k=0, child_ff=True), decoys={'A': 2}), witnesses=W),
         mk('C03', 'deep_ff_chain', S.deep_ff_chain(), witnesses=W),
         mk('C03', 'wal_unserialisable', _wal_await(), witnesses=W),
